@@ -130,6 +130,28 @@ def run(ctx):
         if not m or int(m.group(1)) != val:
             failing.append(dict(profile="debug", literal=lit, impl=a[:300], spec="some %d" % val,
                                 why="the character literal %s denotes code point %d, the analyzer read %s" % (lit, val, m.group(1) if m else "nothing")))
+    # lui through the parser: a literal that denotes 0..0xFFFFF is placed in the upper 20 bits; every other literal is
+    # rejected with a parse error on that literal (never truncated or wrapped)
+    lsel = [(s_, sp) for s_, sp in zip(lits, spec) if all(ch in SYMBOL for ch in s_) and s_ and not s_.startswith("-0") or s_ in ("-0", "-1")]
+    lsel = lsel[::(1 if ctx.thorough() else 3)] + [(s_, sp) for s_, sp in zip(lits, spec) if s_ in ("1048575", "1048576", "0xfffff", "0x100000", "0x100001", "-1", "524288", "0x80000", "4294967295", "0xFFFFFFFF")]
+    lcmds = [lib.store_cmd("parse", pipe.single("lui a2, %s\n" % s_), "a.s") for s_, _ in lsel]
+    li_, lm = lib.run_impl(ctx, lcmds, tag="impl-lui"), lib.run_model(ctx, lcmds, tag="model-lui")
+    evaluations += len(lcmds)
+    for (s_, sp), a, b in zip(lsel, li_, lm):
+        if a != b:
+            disagreements.append(dict(profile="debug", cmd="parse lui a2, " + s_, text=s_, impl=a[:200], model=b[:200]))
+        m = _re.search(r"N\(iarith lui@\S+ 12@\S+ 0@\S+ (-?\d+)@", a)
+        v = int(sp.split(" ")[1]) if sp.startswith("some ") else None
+        why = None
+        if v is not None and 0 <= v <= 0xFFFFF:
+            if not m or int(m.group(1)) != wrap32(v << 12):
+                why = "lui with the literal %s (= %d) must load %d, the analyzer read %s" % (s_, v, wrap32(v << 12), m.group(1) if m else "no instruction")
+        elif m:
+            why = "lui accepts the literal %s (%s), which is not a 20-bit value, as %s" % (s_, "= %d" % v if v is not None else "malformed", m.group(1))
+        elif "E(" not in a:
+            why = "lui with the bad literal %s yields neither an instruction nor a parse error" % s_
+        if why:
+            failing.append(dict(profile="debug", literal="lui a2, " + s_, impl=a[:300], spec=sp, why=why))
     # CSR operands: a numeric CSR operand must be read as the same 32-bit value the literal denotes
     # (named CSRs aside): CsrImm::from_str(s) = Imm::from_str(s) as u32
     named = set(n.lower() for n in names)
